@@ -759,12 +759,6 @@ def conelp(c, G, h, dims = None, A = None, b = None, primalstart = None,
             # The initial points we constructed happen to be feasible and
             # optimal.
 
-            ind = dims['l'] + sum(dims['q'])
-            for m in dims['s']:
-                misc.symm(s, m, ind)
-                misc.symm(z, m, ind)
-                ind += m**2
-
             # rx = A'*y + G'*z + c
             rx = xnewcopy(c)
             Af(y, rx, beta = 1.0, trans = 'T')
@@ -786,6 +780,14 @@ def conelp(c, G, h, dims = None, A = None, b = None, primalstart = None,
             pres = max(resy/resy0, resz/resz0)
             dres = resx/resx0
             cx, by, hz = xdot(c,x), ydot(b,y), misc.sdot(h, z, dims)
+
+            # G'*z overwrites the strict upper triangles of the 's' blocks
+            # of z, so s and z are symmetrized after the residuals.
+            ind = dims['l'] + sum(dims['q'])
+            for m in dims['s']:
+                misc.symm(s, m, ind)
+                misc.symm(z, m, ind)
+                ind += m**2
 
             # The initial points are least-squares solutions and satisfy
             # the equality constraints only if the KKT system was solved
